@@ -323,11 +323,15 @@ C06_Consolidation ==
 \* minimum runtime is not a victim, unless it is elastic and stays at or above its minimum.
 \* Start times are hours away from the limits; judged in the first cycle (later start times are
 \* not observable from the API objects the harness projects).
+\* the plugin's arguments: defaults used when no queue on the path sets a value, and the reclaim resolve method
+\* ("lca": start one step below the lowest common ancestor; "queue": start at the victim's leaf queue)
+DefMinRt(kind) == LET f == IF kind = "preempt" THEN "defMinRtP" ELSE "defMinRtR" IN IF f \in DOMAIN scen.cfg THEN scen.cfg[f] ELSE 0
+MinRtMethod == IF "minRtMethod" \in DOMAIN scen.cfg /\ scen.cfg.minRtMethod = "queue" THEN "queue" ELSE "lca"
 RECURSIVE ResolveUp(_, _)
 ResolveUp(q, kind) ==
-  IF q = 0 THEN 0
+  IF q = 0 THEN DefMinRt(kind)
   ELSE LET v == IF kind = "preempt" THEN Q(q).minRtP ELSE Q(q).minRtR IN
-       IF v > 0 THEN v ELSE IF Q(q).parent = q THEN 0 ELSE ResolveUp(Q(q).parent, kind)
+       IF v > 0 THEN v ELSE IF Q(q).parent = q THEN DefMinRt(kind) ELSE ResolveUp(Q(q).parent, kind)
 StepDown(vq, pq) ==
   LET common == Ancestors(vq) \cap Ancestors(pq)
       cands  == {x \in Ancestors(vq) \ common : Q(x).parent \in common \cup {0}}
@@ -335,7 +339,9 @@ StepDown(vq, pq) ==
 ResolvedMinRt(i) ==
   LET j == JobOf(D[i].p) IN
     IF D[i].mdact = "preempt" THEN ResolveUp(J(j).queue, "preempt")
-    ELSE IF D[i].pre \in Jobs THEN ResolveUp(StepDown(J(j).queue, J(D[i].pre).queue), "reclaim") ELSE 0
+    ELSE IF D[i].pre \in Jobs
+         THEN ResolveUp(IF MinRtMethod = "queue" THEN J(j).queue ELSE StepDown(J(j).queue, J(D[i].pre).queue), "reclaim")
+         ELSE 0
 \* pods of j still active when only the evictions of one kind (reclaim / preempt) are applied: the
 \* protection of one kind does not restrict the other
 ActiveAfterKind(j, kind) ==
@@ -533,7 +539,11 @@ IdenticalClaimants ==
                             /\ J(JobOf(p)).preempt = J(JobOf(Claimant)).preempt /\ Cardinality(PodsOf(JobOf(p))) = 1
 ClusterFull == \A n \in Nodes : DevicesUsed(n) = N(n).gpus
 Uniform == /\ \A p \in Pods : P(p).gpu = 1 /\ ~IsSharing(p) /\ Unconstrained(p) /\ J(JobOf(p)).min = 1
-           /\ \A q \in Queues : Q(q).minRtP = 0 /\ Q(q).minRtR = 0 /\ Q(q).gl = -1
+           /\ \A q \in Queues : Q(q).gl = -1
+\* no running job is protected by a minimum runtime against the kind of eviction the clause expects (the other kind's
+\* protection must not matter)
+NoReclaimProtection == DefMinRt("reclaim") = 0 /\ \A q \in Queues : Q(q).minRtR = 0
+NoPreemptProtection == DefMinRt("preempt") = 0 /\ \A q \in Queues : Q(q).minRtP = 0
            /\ \A n \in Nodes : UsableNode(n)
 PlacedInCycle(p) == \E i \in Dec : (BindAny(i) \/ Piped(i)) /\ D[i].p = p
 \* all claimants together keep their queue and all its ancestors within deserved quota ...
@@ -546,7 +556,7 @@ ReclaimVictimsExist ==
      /\ Q(x).gq # -1 /\ QGpu(x, 0, FALSE) - 1000 * (KClaim - 1) > Q(x).gq
      /\ Cardinality({v \in Pods : S[v].st = "running" /\ J(JobOf(v)).preempt = 1 /\ InSubtree(v, x)}) >= KClaim
 C05_Reclaim ==
-  (AtCycleEnd /\ ~failed /\ cyc = 1 /\ IdenticalClaimants /\ Uniform /\ ClusterFull) =>
+  (AtCycleEnd /\ ~failed /\ cyc = 1 /\ IdenticalClaimants /\ Uniform /\ NoReclaimProtection /\ ClusterFull) =>
      ((ClaimantsWithinQuota /\ ReclaimVictimsExist) => \A p \in Claimants : PlacedInCycle(p))
 \* (a non-preemptible claimant may preempt only while the non-preemptible allocation stays within the deserved quota)
 NpClaimantsWithinQuota ==
@@ -557,7 +567,7 @@ PreemptVictimsExist ==
   Cardinality({v \in Pods : /\ S[v].st = "running" /\ J(JobOf(v)).preempt = 1 /\ J(JobOf(v)).queue = J(JobOf(Claimant)).queue
                             /\ J(JobOf(v)).prio < J(JobOf(Claimant)).prio}) >= KClaim
 C05_Preempt ==
-  (AtCycleEnd /\ ~failed /\ cyc = 1 /\ IdenticalClaimants /\ Uniform /\ ClusterFull) =>
+  (AtCycleEnd /\ ~failed /\ cyc = 1 /\ IdenticalClaimants /\ Uniform /\ NoPreemptProtection /\ ClusterFull) =>
      (PreemptVictimsExist => \A p \in Claimants : PlacedInCycle(p))
 
 \* The same two clauses claimant by claimant, for pending single-pod jobs of SEVERAL queues, priorities and
@@ -597,10 +607,10 @@ EntitledReclaim(p) ==
 NominatedElsewhere(p) ==
   \E i \in Dec : Piped(i) /\ J(JobOf(D[i].p)).preempt = 1 /\ QueueOfPod(D[i].p) # QueueOfPod(p)
 C05_ReclaimEach ==
-  (AtCycleEnd /\ ~failed /\ cyc = 1 /\ SinglePodClaimants /\ Uniform /\ GpuQuotasOnly /\ ClusterFull) =>
+  (AtCycleEnd /\ ~failed /\ cyc = 1 /\ SinglePodClaimants /\ Uniform /\ NoReclaimProtection /\ GpuQuotasOnly /\ ClusterFull) =>
      \A p \in Claimants : (EntitledReclaim(p) /\ ~NominatedElsewhere(p)) => PlacedInCycle(p)
 C05_ReclaimEachAfterNomination ==
-  (AtCycleEnd /\ ~failed /\ cyc = 1 /\ SinglePodClaimants /\ Uniform /\ GpuQuotasOnly /\ ClusterFull) =>
+  (AtCycleEnd /\ ~failed /\ cyc = 1 /\ SinglePodClaimants /\ Uniform /\ NoReclaimProtection /\ GpuQuotasOnly /\ ClusterFull) =>
      \A p \in Claimants : (EntitledReclaim(p) /\ NominatedElsewhere(p)) => PlacedInCycle(p)
 \* preempt: all claimants in one queue, any mix of priorities and preemptibility; victims of strictly lower priority
 \* than every claimant, enough for all of them; a non-preemptible claimant must stay within the deserved quota
@@ -613,7 +623,7 @@ EntitledPreempt(p) ==
   /\ J(JobOf(p)).preempt = 0 =>
         \A q \in Ancestors(QueueOfPod(p)) : Q(q).gq = -1 \/ QGpu(q, 0, TRUE) + 1000 * Cardinality(NpClaimUnder(q)) <= Q(q).gq
 C05_PreemptEach ==
-  (AtCycleEnd /\ ~failed /\ cyc = 1 /\ SinglePodClaimants /\ OneClaimantQueue /\ Uniform /\ GpuQuotasOnly /\ ClusterFull) =>
+  (AtCycleEnd /\ ~failed /\ cyc = 1 /\ SinglePodClaimants /\ OneClaimantQueue /\ Uniform /\ NoPreemptProtection /\ GpuQuotasOnly /\ ClusterFull) =>
      \A p \in Claimants : EntitledPreempt(p) => PlacedInCycle(p)
 
 (***************************************************************************)
